@@ -145,8 +145,12 @@ func c07Filters(t *rapid.T, label string, authors []string) []*mocrelay.ReqFilte
 	var fs []*mocrelay.ReqFilter
 	for i := 0; i < n; i++ {
 		f := &mocrelay.ReqFilter{}
-		switch rapid.IntRange(0, 6).Draw(t, fmt.Sprintf("%sf%d", label, i)) {
+		switch rapid.IntRange(0, 8).Draw(t, fmt.Sprintf("%sf%d", label, i)) {
 		case 0:
+		case 7:
+			f.Kinds = []int64{} // an empty list selects nothing
+		case 8:
+			f.Authors = []string{}
 		case 1:
 			f.Kinds = []int64{1}
 		case 2:
@@ -165,6 +169,60 @@ func c07Filters(t *rapid.T, label string, authors []string) []*mocrelay.ReqFilte
 		fs = append(fs, f)
 	}
 	return fs
+}
+
+// c07Twin derives filters that differ from prev in one place where a shortcut ("the same
+// filters again") would be tempting: an absent condition becomes an empty list (selects
+// nothing) or the reverse, a limit appears or goes, or nothing changes at all.
+func c07Twin(t *rapid.T, label string, prev []*mocrelay.ReqFilter) []*mocrelay.ReqFilter {
+	out := make([]*mocrelay.ReqFilter, len(prev))
+	for i, f := range prev {
+		c := *f
+		out[i] = &c
+	}
+	f := out[rapid.IntRange(0, len(out)-1).Draw(t, label+"twinidx")]
+	switch rapid.IntRange(0, 5).Draw(t, label+"twinkind") {
+	case 0:
+		if f.Kinds == nil {
+			f.Kinds = []int64{}
+		} else if len(f.Kinds) == 0 {
+			f.Kinds = nil
+		} else {
+			f.Kinds = f.Kinds[:1]
+		}
+	case 1:
+		if f.Authors == nil {
+			f.Authors = []string{}
+		} else if len(f.Authors) == 0 {
+			f.Authors = nil
+		}
+	case 2:
+		if f.IDs == nil {
+			f.IDs = []string{}
+		} else if len(f.IDs) == 0 {
+			f.IDs = nil
+		}
+	case 3:
+		if f.Tags == nil {
+			f.Tags = map[string][]string{}
+		} else if len(f.Tags) == 0 {
+			f.Tags = nil
+		} else {
+			m := map[string][]string{}
+			for k, v := range f.Tags {
+				m[k] = v[:len(v)-1] // one value fewer (possibly none: selects nothing)
+			}
+			f.Tags = m
+		}
+	case 4:
+		if f.Limit == nil {
+			f.Limit = gen.Ptr(int64(1))
+		} else {
+			f.Limit = nil
+		}
+	case 5: // unchanged
+	}
+	return out
 }
 
 func TestC07Sequential(t *testing.T) {
@@ -300,10 +358,16 @@ func TestC07Sequential(t *testing.T) {
 			case "REQ":
 				s := rapid.SampledFrom([]string{"a", "b", "c"}).Draw(t, lab+"sub")
 				fs := c07Filters(t, lab, authors)
-				trace = append(trace, c07Step{Conn: ci, Op: "REQ", Sub: s, Fs: gen.BriefFilters(fs)})
-				if _, was := subs[ci][s]; was {
+				if prev, was := subs[ci][s]; was {
 					ended = true // replaced
+					// a replacement that is a near twin of what it replaces (an absent condition
+					// against an empty list, a limit added, the same list again): the new filters count
+					if rapid.IntRange(0, 2).Draw(t, lab+"twin") == 0 {
+						fs = c07Twin(t, lab, prev)
+						col.Label("replace-by-twin")
+					}
 				}
+				trace = append(trace, c07Step{Conn: ci, Op: "REQ", Sub: s, Fs: gen.BriefFilters(fs)})
 				if err := c.put(&mocrelay.ClientReqMsg{SubscriptionID: s, ReqFilters: fs}, stepTimeout); err != nil {
 					failf("stalled", "REQ is taken", err.Error(), "")
 				}
